@@ -19,7 +19,11 @@ static void mk_table(struct pfx_table *t, pfx_update_fp fp)
 	struct trie_node *a = tl_template(FAMV, TD, TE);
 
 	tl_shape_on = false;
+#ifdef TL_OTHER_EMPTY
+	struct trie_node *b = NULL; /* the other address family is empty in this job */
+#else
 	struct trie_node *b = tl_template(OTHV, 0, 1);
+#endif
 
 	if (FAM == 4) {
 		t->ipv4 = a;
